@@ -107,18 +107,27 @@ func DictNew(metatype *Type, args Tuple, kwargs StringDict) (Object, error) {
 	out := NewStringDict()
 	if len(args) == 1 {
 		arg := args[0]
+		if d, ok := arg.(StringDict); ok {
+			// dict(mapping) copies the mapping
+			for k, v := range d {
+				out[k] = v
+			}
+			arg = Tuple{}
+		}
 		seq, err := SequenceList(arg)
 		if err != nil {
 			return nil, err
 		}
-		for _, i := range seq.Items {
-			switch z := i.(type) {
-			case Tuple:
-				if zStr, ok := z[0].(String); ok {
-					out[string(zStr)] = z[1]
-				}
-			default:
+		for n, i := range seq.Items {
+			z, ok := i.(Tuple)
+			if !ok {
 				return nil, ExceptionNewf(TypeError, "non-tuple sequence")
+			}
+			if len(z) != 2 {
+				return nil, ExceptionNewf(ValueError, "dictionary update sequence element #%d has length %d; 2 is required", n, len(z))
+			}
+			if zStr, ok := z[0].(String); ok {
+				out[string(zStr)] = z[1]
 			}
 		}
 	}
